@@ -76,6 +76,21 @@ def mk_key(key):
     return tuple(parts)
 
 
+def pooled_rhs(pool, rhs, cls, tr=None):
+    """A tensor-valued right-hand side that occurs again later in the history is the same OBJECT again (a user who
+    stamps one block into several regions, or assigns it twice): an assignment that renumbers or rescales its
+    right-hand side in place is then visible in the receiver (seed C04v).  Scalars and arrays are rebuilt."""
+    if rhs["r"] != "tensor":
+        return mk_rhs(rhs, cls)
+    k = json.dumps(rhs, sort_keys=True)
+    if k in pool:
+        if tr is not None:
+            tr.tags.add("rhs-object-reused")
+        return pool[k]
+    pool[k] = mk_rhs(rhs, cls)
+    return pool[k]
+
+
 def mk_rhs(rhs, cls):
     r = rhs["r"]
     if r == "scalar":
@@ -427,6 +442,12 @@ def gen_history(rng, cls, length, d10_rate=0.0, malformed_rate=0.06):
             except Reject:
                 pass
         ops.append(op)
+        if write and op["rhs"]["r"] == "tensor" and rng.random() < 0.4:
+            # the same block assigned once more to the same key (same right-hand-side OBJECT, see pooled_rhs), directly
+            # or after a read of the region
+            if rng.random() < 0.5:
+                ops.append({"op": "read", "key": copy.deepcopy(key)})
+            ops.append(copy.deepcopy(op))
     return {"cls": cls, "start": start, "ops": ops}
 
 
@@ -452,6 +473,7 @@ def run_object(cls, start, ops):
     tr = Trace()
     x = mk_obj(start, cls)
     ref = start_oracle(start, cls)
+    pool = {}  # tensor-valued right-hand sides live as long as the history: the same value is the same OBJECT
     for i, op in enumerate(ops):
         before = state_of(x, cls)
         snap = copy.deepcopy(x)
@@ -467,7 +489,7 @@ def run_object(cls, start, ops):
         # implementation
         try:
             if write:
-                x[mk_key(op["key"])] = mk_rhs(op["rhs"], cls)
+                x[mk_key(op["key"])] = pooled_rhs(pool, op["rhs"], cls, tr)
                 iout = {"written": True}
             else:
                 iout = read_canon(x[mk_key(op["key"])])
